@@ -27,6 +27,7 @@ import (
 // Op is one operation of a history.
 type Op struct {
 	Ins     []int `json:"ins,omitempty"`     // InsertChain / InsertHeaderChain of these nodes
+	Hdr     bool  `json:"hdr,omitempty"`     // mixed history: this operation imports the headers only
 	SetHead *int  `json:"sethead,omitempty"` // SetHead(n)
 }
 
@@ -168,6 +169,75 @@ func checkRest(env *chainkit.Env, bc *core.BlockChain, db aquadb.Database, t *ch
 	return fails
 }
 
+// checkMixed is the invariant for a chain that received both full blocks and bare headers: the header
+// head H may be ahead of the block head B; B is an ancestor of (or equal to) H, heights up to H map to
+// H's ancestors, nothing is mapped above H, block data is complete up to B and transaction lookups
+// follow B.
+func checkMixed(env *chainkit.Env, bc *core.BlockChain, db aquadb.Database, t *chaintree.Tree, txs map[common.Hash][]txLoc, maxH uint64) []string {
+	gen := env.Genesis.Hash()
+	H, B := bc.CurrentHeader(), bc.CurrentBlock()
+	hi, bi := t.Index(H.Hash(), gen), t.Index(B.Hash(), gen)
+	if hi == -2 || bi == -2 {
+		return []string{"head is not a block of the tree"}
+	}
+	var fails []string
+	// The header chain follows the heaviest header and may leave the branch of the block head (that is
+	// the designed behaviour of header-first sync); block data and lookups are then not comparable.
+	onChain := bi == -1 || (hi >= 0 && isAncestorOrSelf(t, bi, hi))
+	hashAt := func(from int, num uint64) common.Hash {
+		if num == 0 {
+			return gen
+		}
+		a := t.Ancestor(from, num)
+		if a < 0 {
+			return common.Hash{}
+		}
+		return t.Blocks[a].Hash()
+	}
+	for num := uint64(0); num <= H.Number.Uint64(); num++ {
+		want := hashAt(hi, num)
+		if got := core.GetCanonicalHash(db, num); got != want {
+			fails = append(fails, fmt.Sprintf("height %d (<= header head %d) maps to %x, the head's ancestor there is %x", num, H.Number.Uint64(), got[:4], want[:4]))
+		}
+	}
+	for num := H.Number.Uint64() + 1; num <= maxH+2; num++ {
+		if got := core.GetCanonicalHash(db, num); got != (common.Hash{}) {
+			fails = append(fails, fmt.Sprintf("height %d above the head (%d) still maps to %x (stale canonical entry)", num, H.Number.Uint64(), got[:4]))
+		}
+	}
+	if !onChain {
+		return fails
+	}
+	for num := uint64(1); num <= B.NumberU64(); num++ {
+		want := hashAt(bi, num)
+		if blk := bc.GetBlockByNumber(num); blk == nil || blk.Hash() != want {
+			if len(fails) == 0 {
+				fails = append(fails, fmt.Sprintf("block by number %d (<= block head) not retrievable / wrong", num))
+			}
+		} else if core.GetBlockReceipts(db, want, num) == nil {
+			fails = append(fails, fmt.Sprintf("receipts of canonical block %d not retrievable", num))
+		}
+	}
+	for h, locs := range txs {
+		canon, idx := -1, 0
+		for _, l := range locs {
+			if bi >= 0 && isAncestorOrSelf(t, l.node, bi) {
+				canon, idx = l.node, l.index
+			}
+		}
+		tx, bh, bn, ti := core.GetTransaction(db, h)
+		switch {
+		case canon >= 0 && tx == nil:
+			fails = append(fails, fmt.Sprintf("transaction %x is in canonical block (node %d) but its lookup does not resolve", h[:4], canon))
+		case canon >= 0 && (bh != t.Blocks[canon].Hash() || bn != t.Blocks[canon].NumberU64() || int(ti) != idx):
+			fails = append(fails, fmt.Sprintf("transaction %x lookup points at %x/%d/%d, canonical position is node %d", h[:4], bh[:4], bn, ti, canon))
+		case canon < 0 && tx != nil:
+			fails = append(fails, fmt.Sprintf("transaction %x is in no canonical block but its lookup resolves to %x/%d", h[:4], bh[:4], bn))
+		}
+	}
+	return fails
+}
+
 func runHistory(env *chainkit.Env, t *chaintree.Tree, txs map[common.Hash][]txLoc, h history) (o outcome) {
 	db := env.NewChainDB()
 	vrand.SetScript(h.Coins)
@@ -184,6 +254,12 @@ func runHistory(env *chainkit.Env, t *chaintree.Tree, txs map[common.Hash][]txLo
 		}
 	}
 	rewound := false
+	mixed := false
+	for _, op := range h.Ops {
+		if op.Hdr {
+			mixed = true
+		}
+	}
 	defer func() {
 		if x := recover(); x != nil {
 			o.fails = append(o.fails, fmt.Sprintf("operation panicked (%s): %v", o.trace, x))
@@ -198,13 +274,13 @@ func runHistory(env *chainkit.Env, t *chaintree.Tree, txs map[common.Hash][]txLo
 			}
 			rewound = true
 			o.trace += fmt.Sprintf("S%d;", *op.SetHead)
-		case h.Headers:
+		case h.Headers || op.Hdr:
 			var hs []*types.Header
 			for _, i := range op.Ins {
 				hs = append(hs, t.Blocks[i].Header())
 			}
 			_, err := bc.InsertHeaderChain(hs, 1)
-			if err != nil && !rewound {
+			if err != nil && !rewound && !mixed {
 				o.fails = append(o.fails, fmt.Sprintf("op %d: InsertHeaderChain rejected valid headers: %v", oi, err))
 				return o
 			}
@@ -215,13 +291,19 @@ func runHistory(env *chainkit.Env, t *chaintree.Tree, txs map[common.Hash][]txLo
 				bs = append(bs, t.Blocks[i])
 			}
 			_, err := bc.InsertChain(bs)
-			if err != nil && !rewound {
+			if err != nil && !rewound && !mixed {
 				o.fails = append(o.fails, fmt.Sprintf("op %d: InsertChain rejected valid blocks: %v", oi, err))
 				return o
 			}
 			o.trace += fmt.Sprintf("I%v;", op.Ins)
 		}
-		if f := checkRest(env, bc, db, t, txs, h.Headers, maxH); len(f) > 0 {
+		var f []string
+		if mixed {
+			f = checkMixed(env, bc, db, t, txs, maxH)
+		} else {
+			f = checkRest(env, bc, db, t, txs, h.Headers, maxH)
+		}
+		if len(f) > 0 {
 			for _, m := range f {
 				o.fails = append(o.fails, fmt.Sprintf("after op %d (%s): %s", oi, o.trace, m))
 			}
@@ -242,6 +324,13 @@ func sizes(tier string) (maxN int, diffs []int64, maxSeg int) {
 		return 5, []int64{1, 2}, 3
 	}
 	return 4, []int64{1, 2}, 2
+}
+
+func mixedMax(tier string) int {
+	if tier == "thorough" {
+		return 4
+	}
+	return 3
 }
 
 func newEnv() (*chainkit.Env, *chaintree.Builder) {
@@ -323,6 +412,11 @@ func worker(shard, nsh int) {
 				if headers {
 					mode = "headers"
 				}
+				for _, op := range ops {
+					if op.Hdr {
+						mode = "mixed"
+					}
+				}
 				hasSH := "import-only"
 				for _, op := range ops {
 					if op.SetHead != nil {
@@ -384,6 +478,18 @@ outer:
 					}
 					runOne(s, tr, txs, base, false)
 					runOne(s, tr, txs, base, true)
+					// mixed: a contiguous run of operations delivers bare headers, the others full blocks
+					if len(s.Parent) <= mixedMax(tier) {
+						for k := 0; k < len(base); k++ {
+							for j := 1; k+j <= len(base); j++ {
+								ops := append([]Op(nil), base...)
+								for x := k; x < k+j; x++ {
+									ops[x] = Op{Ins: base[x].Ins, Hdr: true}
+								}
+								runOne(s, tr, txs, ops, false)
+							}
+						}
+					}
 					// one SetHead(m) after every prefix, then the rest of the history
 					for k := 1; k <= len(base); k++ {
 						for m := 0; m <= maxH+1; m++ {
@@ -413,7 +519,7 @@ outer:
 }
 
 func oracleOf(msg string) string {
-	for _, k := range []string{"operation panicked", "stale canonical entry", "above the head", "maps to", "not retrievable", "lookup does not resolve", "lookup points at", "in no canonical block", "rejected valid", "not a block of the tree", "SetHead("} {
+	for _, k := range []string{"operation panicked", "is not on the chain of the header head", "stale canonical entry", "above the head", "maps to", "not retrievable", "lookup does not resolve", "lookup points at", "in no canonical block", "rejected valid", "not a block of the tree", "SetHead("} {
 		if strings.Contains(msg, k) {
 			return strings.ReplaceAll(strings.Trim(k, "("), " ", "-")
 		}
